@@ -113,14 +113,13 @@ func checkC13(r *Run) {
 	}
 	// go_package given as a bare path whose last element is no identifier: the package name is gogo's cleaned form of it
 	for _, mk := range []func() *descgen.Entry{descgen.K7, descgen.K5} {
-		add(mk, false)
+		mk := mk
+		add(func() *descgen.Entry { e := mk(); return descgen.Rename(e, e.Name+"c") }, false)
 		a, b := cases[len(cases)-2], cases[len(cases)-1]
 		b.DottedPath, b.HyphenPath, b.DigitPath, b.SameName, b.ForeignGoPackage, b.FullPathOverride, b.MixedCasePkg, b.PrefixTarget, b.DecoyPrefixOverrides = false, false, false, false, false, false, false, false, false
 		a.MixedCasePkg = false
 		b.CleanedPkgName = true
-		b.Name += "c"
 		b.Tags = append(b.Tags, "go-package-path-needs-cleaning")
-		pairs[len(pairs)-1].B = b.Name
 		pairs[len(pairs)-1].Label = "separate-package/override=false/cleaned-package-name"
 		if !r.thorough() {
 			break
